@@ -728,10 +728,31 @@ class Interp:
                         self.broken('call %s returns no value' % e.get('callee'), e, frame)
                     outs.append((s2, rv))
                 return outs
+            if not e.get('calleeInRoot') and e.get('callee'):
+                # a library function outside the repository (strlen, ...): an opaque value of its rendered arguments
+                return [(st, Lin.term(('call', '%s(%s)' % (e['callee'], ', '.join(self.render(a, frame) for a in e.get('args', [])))) ))]
             self.broken('call to ' + str(e.get('callee')), e, frame)
         if k == 'DefaultArg':
             return self.ev(e['e'], st, frame)
         self.broken('expression kind ' + str(k), e, frame)
+
+    def render(self, e, frame):
+        e = strip_all_casts(e)
+        if not isinstance(e, dict):
+            return '?'
+        p = self.abs_path(e, frame) if e.get('k') in ('Member', 'This') else None
+        if p is not None:
+            return fmt_path(p)
+        if e.get('k') == 'Call':
+            o = self.render(e['obj'], frame) + '.' if e.get('obj') is not None else ''
+            return '%s%s(%s)' % (o, e.get('fn'), ', '.join(self.render(a, frame) for a in e.get('args', [])))
+        if 'v' in e:
+            return str(e['v'])
+        if e.get('k') == 'Ref':
+            return e.get('name', '?')
+        if e.get('k') == 'Bin':
+            return '(%s %s %s)' % (self.render(e['lhs'], frame), e['op'], self.render(e['rhs'], frame))
+        return e.get('k', '?')
 
     def _is_pure_const(self, e):
         return True
